@@ -44,6 +44,21 @@ def confirm(d):
         except Exception as e:
             out['junit_error'] = str(e)
         missing = sorted(STABLE - passed)
+        # unseeded tests of the suite fail now and then on the clean tree as well (test_optim_anybatch: 5 of 300 seeds): re-run a missing test
+        # on its own, up to 3 times, before counting it against the change
+        retried = {}
+        for t in list(missing):
+            cls, name = t.split('::')
+            parts = cls.split('.')
+            node = '/'.join(parts[:-1]) + '.py::' + parts[-1] + '::' + name
+            for k in range(3):
+                rc2, _ = sh('/venv/bin/python -m pytest -q -p no:cacheprovider --timeout=900 "%s"' % node, cwd=wt, timeout=1200)
+                if rc2 == 0:
+                    missing.remove(t)
+                    retried[t] = k + 1
+                    break
+        if retried:
+            out['suite_retried_alone'] = retried
         out['suite_baseline_missing'] = missing
         out['suite_ok'] = not missing
         sh('git checkout -- . ', cwd=wt)
